@@ -36,11 +36,12 @@ func c16Floor(f *c16Format, t int64) int64 {
 }
 
 var (
-	c16ReSRT  = regexp.MustCompile(`(?m)^(\d{2,}):(\d{2}):(\d{2}),(\d{3}) --> (\d{2,}):(\d{2}):(\d{2}),(\d{3})$`)
-	c16ReVTT  = regexp.MustCompile(`(?m)^(\d{2,}):(\d{2}):(\d{2})\.(\d{3}) --> (\d{2,}):(\d{2}):(\d{2})\.(\d{3})$`)
-	c16ReTTML = regexp.MustCompile(`<p begin="(\d{2,}):(\d{2}):(\d{2})\.(\d{3})" end="(\d{2,}):(\d{2}):(\d{2})\.(\d{3})"`)
-	c16ReSSA  = regexp.MustCompile(`(?m)^Dialogue: [^,]*,(\d+):(\d{2}):(\d{2})\.(\d{2}),(\d+):(\d{2}):(\d{2})\.(\d{2}),`)
-	c16ReAny  = regexp.MustCompile(`-->|<p |Dialogue:`)
+	c16ReSRT      = regexp.MustCompile(`(?m)^(\d{2,}):(\d{2}):(\d{2}),(\d{3}) --> (\d{2,}):(\d{2}):(\d{2}),(\d{3})$`)
+	c16ReVTT      = regexp.MustCompile(`(?m)^(\d{2,}):(\d{2}):(\d{2})\.(\d{3}) --> (\d{2,}):(\d{2}):(\d{2})\.(\d{3})$`)
+	c16ReTTMLp    = regexp.MustCompile(`<p( [^>]*)?>`)
+	c16ReTTMLattr = regexp.MustCompile(` (begin|end)="([^"]*)"`)
+	c16ReClock    = regexp.MustCompile(`^(\d{2,}):(\d{2}):(\d{2})\.(\d{3})$`)
+	c16ReAny      = regexp.MustCompile(`-->`)
 )
 
 func c16DecodeText(re *regexp.Regexp, fracUnit int64) func(b []byte) ([]int64, string) {
@@ -64,6 +65,45 @@ func c16DecodeText(re *regexp.Regexp, fracUnit int64) func(b []byte) ([]int64, s
 		}
 		return out, ""
 	}
+}
+
+// c16DecodeTTML reads begin/end of every <p> whatever the order of the attributes
+func c16DecodeTTML(b []byte) ([]int64, string) {
+	var out []int64
+	for _, p := range c16ReTTMLp.FindAll(b, -1) {
+		vals := map[string]string{}
+		for _, m := range c16ReTTMLattr.FindAllSubmatch(p, -1) {
+			vals[string(m[1])] = string(m[2])
+		}
+		for _, k := range []string{"begin", "end"} {
+			m := c16ReClock.FindStringSubmatch(vals[k])
+			if m == nil {
+				return nil, fmt.Sprintf("%s=%q of a <p> does not match hh:mm:ss.mmm", k, vals[k])
+			}
+			h, _ := strconv.ParseInt(m[1], 10, 64)
+			mi, _ := strconv.ParseInt(m[2], 10, 64)
+			s, _ := strconv.ParseInt(m[3], 10, 64)
+			fr, _ := strconv.ParseInt(m[4], 10, 64)
+			if mi >= 60 || s >= 60 {
+				return nil, fmt.Sprintf("field out of range in %q", vals[k])
+			}
+			out = append(out, h*3600e9+mi*60e9+s*1e9+fr*1e6)
+		}
+	}
+	return out, ""
+}
+
+// c16DecodeSSA uses the harness's Format-driven decoder (column order free)
+func c16DecodeSSA(b []byte) ([]int64, string) {
+	m, err := ssaDecode(b)
+	if err != nil {
+		return nil, err.Error()
+	}
+	var out []int64
+	for _, e := range m.Events {
+		out = append(out, e.Start*1e7, e.End*1e7)
+	}
+	return out, ""
 }
 
 func c16DecodeSTL(fps int64, maxHours int64) func(b []byte) ([]int64, string) {
@@ -99,11 +139,11 @@ var c16Formats = []*c16Format{
 			return s.WriteToTTML(b, astisub.WriteToTTMLWithIndentOption(""))
 		},
 		read:   func(b []byte) (*astisub.Subtitles, error) { return astisub.ReadFromTTML(bytes.NewReader(b)) },
-		decode: c16DecodeText(c16ReTTML, 1e6)},
+		decode: c16DecodeTTML},
 	{name: "ssa", unit: 1e7, maxH: 100,
 		write:  func(s astisub.Subtitles, b *bytes.Buffer) error { return s.WriteToSSA(b) },
 		read:   func(b []byte) (*astisub.Subtitles, error) { return astisub.ReadFromSSA(bytes.NewReader(b)) },
-		decode: c16DecodeText(c16ReSSA, 1e7)},
+		decode: c16DecodeSSA},
 	{name: "stl25", fps: 25, maxH: 24,
 		write: func(s astisub.Subtitles, b *bytes.Buffer) error { return s.WriteToSTL(b) },
 		read: func(b []byte) (*astisub.Subtitles, error) {
